@@ -44,8 +44,10 @@ claim('C03',
       'completeness), AND — for grammars in which every right-hand side derives some token sequence — consumed itself is a prefix of a sentence '
       '(every item of a state is reached from the kernel by finitely many closure steps, so the stack can always be completed): the reported '
       'index is neither too late nor too early. Proved for every grammar the model of generate accepts (reject_exact; Inv3 from the builder\'s '
-      'bi_reach invariant). Not proved: for grammars with unproductive nonterminals, agreement with a canonical LR(1) parser; decided per input '
-      'by Earley / canonical LR(1) oracles on compiled parsers with a counting iterator. ' + PER_GRAMMAR,
+      'bi_reach invariant). AND for every accepted grammar, unproductive nonterminals included (the second clause of the quantifier): the rejection is '
+      'at the position at which the canonical LR(1) parser of the grammar stops (LR/CanonAgree.v): the canonical parser, defined from the '
+      'canonical collection by viable prefix, consumes the same tokens, and from there can neither shift the reported token nor accept. '
+      'Earley / canonical LR(1) oracles still decide every sampled input on compiled parsers with a counting iterator. ' + PER_GRAMMAR,
       COMMON_NOTE + 'Peekable/Chain modelled by documented behaviour.',
       'Coq proof (one-token-lookahead lockstep, fuel monotonicity, completeness, kernel-reachability of items) + compiled-parser differential with pull counter',
       'DESIGN.md §5 C03')
